@@ -89,7 +89,7 @@ Definition prepared (s : setb) : bool :=
 Definition elem_typed (e : ie) (v : value) : bool :=
   rfc_width_ok e &&
   match ie_dt e, v with
-  | OctetArray, VOct o => negb (N.eqb (ie_len e) 0) || Nat.eqb (List.length (obytes o)) 0
+  | OctetArray, VOct o => true
   | Unsigned8, VU8 n => n <? 2 ^ 8
   | Unsigned16, VU16 n => n <? 2 ^ 16
   | Unsigned32, VU32 n => n <? 2 ^ 32
